@@ -254,15 +254,18 @@ _generic("C20", template_props,
          "and records the factor tables by their documented roles; TLC recomputes the documented "
          "CP / Tucker / tensor-train contraction, the HMM joint (backward recursion over the given "
          "ordering) and the fully factorised product, and checks that variable v's input layer has "
-         "the arguments given for variable id v.",
+         "the arguments given for variable id v; random deterministic and decomposable "
+         "propositional formulas (decision DAGs over <= 4 variables) are built as LogicalCircuit, "
+         "compiled with the default literal inputs, evaluated on every assignment (truth value) and "
+         "integrated (model count).",
          "Trace validation (direction B): the documented formulas are TLA+ operators over integer "
          "factor tables, evaluated by TLC on records of real template circuits.",
          "TLA+ formulas (TraceTemplates.tla) evaluated by TLC on ndjson records of real template "
          "constructions and evaluations",
          note=("Trusted base: TLC, the recorder (reads factor tensors by documented role from the "
                "symbolic circuit; activation 'none' so that parameters equal tensor values), exact "
-               "integer arithmetic (float64 outputs rounded, deviation > 1e-6 is an error). Logic "
-               "circuits (SDD / propositional formulas) and binomial factors are not covered."))
+               "integer arithmetic (float64 outputs rounded, deviation > 1e-6 is an error). SDD "
+               "files (sdd.py), single-literal formulas and binomial factors are not covered."))
 
 _sem("C15",
      "TLC enumerates smooth and decomposable circuits with normalised parameters (categorical "
